@@ -39,6 +39,8 @@ type faultBucket struct {
 	crashed  bool
 	panicOn  bool // crash by panicking out of the call instead of returning an error
 	calls    []callRec
+	callIdx  int // all calls of the current run, counted from 0
+	failAt   int // the call with this index fails once (transient failure); < 0: none
 	reads    int
 	failRead func(idx int, kind, name string) bool // idx counts read calls from 0
 	// intercept (C33) may answer a read itself: "" = pass through, "failed" = transient error,
@@ -50,7 +52,7 @@ type faultBucket struct {
 type crashPanic struct{}
 
 func newFaultBucket(inner *objstore.InMemBucket) *faultBucket {
-	return &faultBucket{inner: inner, budget: -1}
+	return &faultBucket{inner: inner, budget: -1, failAt: -1}
 }
 
 // arm starts a new run: `budget` mutating calls may pass (< 0: no crash); the call log is reset.
@@ -61,6 +63,16 @@ func (b *faultBucket) arm(budget int) {
 	b.crashed = budget == 0
 	b.calls = nil
 	b.reads = 0
+	b.callIdx = 0
+	b.failAt = -1
+}
+
+// armTransient starts a new run without crash in which exactly the call number j (from 0) fails.
+func (b *faultBucket) armTransient(j int) {
+	b.arm(-1)
+	b.mu.Lock()
+	b.failAt = j
+	b.mu.Unlock()
 }
 
 func (b *faultBucket) log() []callRec {
@@ -79,6 +91,12 @@ func (b *faultBucket) gate(kind, name string, mut bool) error {
 			panic(crashPanic{})
 		}
 		return errCrash
+	}
+	idx0 := b.callIdx
+	b.callIdx++
+	if idx0 == b.failAt {
+		b.calls = append(b.calls, callRec{Kind: kind, Name: name, Mut: mut, Failed: true})
+		return errInjected
 	}
 	if !mut {
 		idx := b.reads
